@@ -343,6 +343,12 @@ def h_copy_layer(ctx, case):
                         del g[el]
                         g.create_dataset(el, data=d, chunks=(ch,),
                                          dtype=dt)
+                    elif len(d) == 0:
+                        # what anndata writes for an array without
+                        # entries: resizable, shape (0,), chunks (1024,)
+                        del g[el]
+                        g.create_dataset(el, data=d, chunks=(1024,),
+                                         maxshape=(None,), dtype=dt)
     dst = env.path('dst.h5ad')
     with env.File(dst, 'w') as f:
         f.create_group('obs')
